@@ -1,9 +1,10 @@
 /-
   FframeRestAll — `C05_frame_general2`: `frame_general` (Lemmas/FframeGeneralAll.lean) extended to map clear, append
-  of an entry node and any_append, with `XCall.writtenParents2` (Model/FframeSpec2.lean).
+  of an entry node, any_append and remove_insignificant_whitespace, with `XCall.writtenParents2` (Model/FframeSpec2.lean).
 -/
 import XotModel.Model.FframeSpec2
 import XotModel.Lemmas.FframeRestEntry
+import XotModel.Lemmas.FframeRestWs
 
 namespace XotModel
 open HTree Spec PairAll
@@ -18,7 +19,7 @@ theorem isElement_of_mapClear_ok {f : Forest} {k : MapKind} {e : Nat}
 theorem framed2_of_framed {c : Forest.XCall} (h : c.framed = true) : c.framed2 = true := by
   cases c with
   | call k => cases k <;> first | rfl | exact h
-  | _ => exact h
+  | _ => first | rfl | exact h
 
 theorem getFrame_anyAppend {f : Forest} (inv : f.Inv) {p c : Nat} {t : HTree}
     (hok : (f.anyAppend p c).2.1 = .ok) (hgc : f.get? c = some t) {z : Nat}
@@ -72,6 +73,15 @@ theorem frame_general2 {s : Store} {c : Forest.XCall} (inv : s.forest.Inv) (hw :
         simp only [Forest.XCall.writtenParents, List.mem_append, not_or] at hnw
         exact (getFrame_anyAppend inv hok hg hnw.1.1 hnw.1.2 (not_mem_handles_of_subtree hg hnm) hne).frameAt hl
       | _ => first | exact absurd rfl hf1 | cases hf
+    | removeInsignificantWhitespace n =>
+      obtain ⟨t, hg⟩ := Forest.get_of_live (hla n (List.mem_singleton.2 rfl))
+      have hzp : some h ≠ s.forest.parent? n := by
+        intro e
+        apply hne
+        show h ∈ (s.forest.parent? n).toList
+        rw [← e]
+        exact List.mem_singleton.2 rfl
+      exact (getFrame_riw inv hg (not_mem_handles_of_subtree hg hnw) hzp).frameAt hl
     | _ => first | exact absurd rfl hf1 | cases hf
 
 end XotModel
